@@ -95,6 +95,14 @@ class CFG:
         if isinstance(test, ast.UnaryOp) and isinstance(test.op, ast.Not):
             t, f = self._cond(test.operand, incoming)
             return f, t
+        if isinstance(test, ast.Compare) and len(test.ops) > 1 and all(isinstance(o, (ast.Lt, ast.LtE, ast.Gt, ast.GtE, ast.Eq, ast.NotEq)) for o in test.ops):
+            # `a <= x <= b` is `a <= x and x <= b` (operands are taken to be free of side effects): one atom per link
+            parts = []
+            left = test.left
+            for o, right in zip(test.ops, test.comparators):
+                parts.append(ast.copy_location(ast.Compare(left=left, ops=[o], comparators=[right]), test))
+                left = right
+            return self._cond(ast.copy_location(ast.BoolOp(op=ast.And(), values=parts), test), incoming)
         n = self._new("cond", test)
         self._connect(incoming, n.id)
         self._exc_edges(n.id)
